@@ -453,4 +453,7 @@ pub fn run(ctx: &mut Ctx) {
         parse_case(acc, idx, why, *ty, &fmt, pic, text, None);
     });
     ctx.require(&r, &["rejected"]);
+
+    // hidden state: every ordered pair of parse calls (failing ones included) on a fresh thread against the lone call
+    crate::histpairs::pairwise(ctx, "C05", "parse", crate::histpairs::calls_parse());
 }
